@@ -1320,7 +1320,16 @@ func (c *Ctx) checkEndingOrigin(clearers []fieldAccess) {
 	n := 0
 	seen := map[*ssa.Function]bool{}
 	for _, a := range clearers {
-		fn := a.Fn
+		// the ending function: the one that clears the slot, or - when the clearing was moved into a
+		// helper of it - the nearest function up the chain of sole callers that is told who ended the call
+		fn := c.climbUntil(a.Fn, func(R *ssa.Function) bool {
+			for _, p := range R.Params {
+				if b, ok := p.Type().Underlying().(*types.Basic); ok && b.Kind() == types.String {
+					return true
+				}
+			}
+			return false
+		})
 		if seen[fn] || len(fn.Params) < 2 {
 			continue
 		}
